@@ -19,7 +19,7 @@ import (
 
 var resFaults = []string{"rotate-keep-old", "rotate-drop-old", "restart-keep-key", "restart-lose-key", "change-suites", "change-client-auth", "disable-tickets", "enable-tickets", "evict-by-other-name", "other-server-shared-key", "other-server-own-key",
 	"change-max-version", "clone-config", "ticket-byte-flip", "ticket-truncated", "ticket-extended", "ticket-suite-not-offered", "ticket-genuine-via-reference-client", "ticket-from-dropped-key", "clock-jump"}
-var resReach = []string{"resumed", "full-handshake", "resumed-with-old-key-ticket-refreshed", "fallback-after-rotation", "fallback-after-restart", "fallback-suite-change", "fallback-client-auth", "fallback-tickets-off", "fallback-evicted", "fallback-forged-ticket", "completeness-checked", "soundness-checked", "master-equal-checked", "wire-decoded-resumed", "gm-mode", "tls-mode", "client-cert-in-ticket", "history>=4"}
+var resReach = []string{"resumed", "full-handshake", "resumed-with-old-key-ticket-refreshed", "fallback-after-rotation", "fallback-after-restart", "fallback-suite-change", "fallback-client-auth", "fallback-tickets-off", "fallback-evicted", "fallback-forged-ticket", "completeness-checked", "soundness-checked", "master-equal-checked", "wire-decoded-resumed", "gm-mode", "tls-mode", "client-cert-in-ticket", "history>=4", "refclient-tls12", "wire-decoded-resumed-tls12"}
 
 func init() {
 	register(Family{Name: "tls-resumption", Prop: "C16", ID: 1601, Weight: 1, FaultNames: resFaults, ReachNames: resReach, Run: runResumption})
@@ -78,7 +78,7 @@ func plainHandshake(stream []byte) []reftls.HsMsg {
 
 func runResumption(c *simkit.Choice, r *simkit.Rec) {
 	pki.Load()
-	gm := !c.Bool(1, 4, simkit.LScen)
+	gm := !c.Bool(1, 3, simkit.LScen)
 	capacity := c.Range(1, 3, simkit.LScen)
 	twoServers := c.Bool(1, 3, simkit.LScen)
 	sharedKey := c.Bool(1, 2, simkit.LScen)
@@ -102,6 +102,9 @@ func runResumption(c *simkit.Choice, r *simkit.Rec) {
 		allSuites = []uint16{gmSuites[0], gmSuites[1]}
 	} else {
 		allSuites = []uint16{0xc02f, 0x009c, 0x002f}
+		if c.Bool(1, 2, simkit.LScen) {
+			allSuites = []uint16{0x009c, 0x002f, 0xc02f} // RSA key exchange preferred: sessions the reference client can take over
+		}
 	}
 	nextGen := 1
 	skew := int64(0)
@@ -451,8 +454,9 @@ func runResumption(c *simkit.Choice, r *simkit.Rec) {
 				}
 			}
 		}
-		// 3/wire: GMSSL sessions are decoded independently under the model's master
-		if gm {
+		// 3/wire: GMSSL sessions, and the TLS 1.2 sessions the reference can follow, are
+		// decoded independently under the model's master
+		if gm || reftls.Decodable(out.sst.Version, out.sst.CipherSuite, resumed) {
 			km := map[string][]byte{hex.EncodeToString(ch.Random): master}
 			sess, err := reftls.Decode(out.c2s, out.s2c, reftls.DecodeOpts{KeyLog: km})
 			if err != nil || !sess.Complete {
@@ -470,6 +474,9 @@ func runResumption(c *simkit.Choice, r *simkit.Rec) {
 			if resumed {
 				r.Reach(idx(resReach, "wire-decoded-resumed"))
 				r.Reach(idx(resReach, "master-equal-checked"))
+				if !gm {
+					r.Reach(idx(resReach, "wire-decoded-resumed-tls12"))
+				}
 			}
 		} else if resumed {
 			// TLS mode: both ends agree on exported keying material (checked above)
@@ -610,8 +617,8 @@ func runResumption(c *simkit.Choice, r *simkit.Rec) {
 					out := connect(fmt.Sprint(step)+"e", evict, mkClient("server2.sim", allSuites), nil)
 					judge(step, evict, out, false, false, allSuites, "server2.sim")
 				}
-			case 8: // forged / foreign ticket through the reference client (GMSSL only)
-				if !gm || len(issuedOrder) == 0 {
+			case 8: // forged / foreign ticket through the reference client
+				if len(issuedOrder) == 0 {
 					continue
 				}
 				tk := issuedOrder[c.Choose(len(issuedOrder), simkit.LFault)]
@@ -619,6 +626,18 @@ func runResumption(c *simkit.Choice, r *simkit.Rec) {
 				ticket := []byte(tk)
 				forged := true
 				other := gmSuites[0] + gmSuites[1] - it.suite
+				if !gm {
+					// the reference client speaks TLS 1.2 with RSA key exchange only: the
+					// fallback full handshake must be able to use one of the two RSA suites
+					if sv.maxVers != 0 && sv.maxVers != gmtls.VersionTLS12 {
+						continue
+					}
+					if it.suite != 0x009c && it.suite != 0x002f {
+						continue
+					}
+					other = 0x009c + 0x002f - it.suite
+					r.Reach(idx(resReach, "refclient-tls12"))
+				}
 				offer := []uint16{it.suite, other}
 				kind := c.Choose(5, simkit.LFault)
 				switch kind {
@@ -658,6 +677,12 @@ func runResumption(c *simkit.Choice, r *simkit.Rec) {
 				rc := &reftls.ClientCfg{Rand: simkit.NewStream(seed + uint64(step)*31), Suites: offer, ServerName: "server.sim", Ticket: ticket, Master: it.master}
 				if clientHasCert {
 					rc.Cert = ident("cli", true)
+				}
+				if !gm {
+					rc.Vers, rc.VersSet = reftls.VersionTLS12, true
+					if clientHasCert {
+						rc.Cert = &reftls.Identity{Chain: [][]byte{pki.DER("tlsclirsa")}, RSA: refRSA("tlsclirsa")}
+					}
 				}
 				if len(ticket) == 0 {
 					rc.Ticket = nil
